@@ -241,7 +241,7 @@ def run_c05(ctx):
     sess_tap = 0
     if "infra_error" not in r3:
         # ... and the size rule (33+32m bytes, m <= 128), which is enforced where the session is configured
-        viol += [v for v in r3["violations"] if v["key"].startswith("commitment:") or "control block" in v["key"]]
+        viol += [v for v in r3["violations"] if v["key"].startswith("commitment:") or v["key"] == "failed-step-then-step-succeeds:commitment" or "control block" in v["key"]]
         sess_tap = r3["by_type"].get("p2tr-script", 0)
     c = r["classes"]
     cov = {
